@@ -299,6 +299,11 @@ def models_agree(ctx, models, at, nd, a0):
     if models is not None and models[0] == 'map' and nd == 2 and models[1][0] == 'range':
         # a comprehension over the signals: the same element-wise definition as zeros(...).tolist() + a full-range store
         models = ('arr', ('call', 'zeros', (), ()), ((('lv', models[1], 0), models[2], T.TRUE),))
+    if models is not None and models[0] == 'arr' and nd == 3 and len(models[2]) == 1 and models[2][0][0][0] == 'lv' and models[2][0][1][0] == 'map' \
+            and models[2][0][1][1][0] == 'range':
+        # models[i] = [model(i, j) for j ...]: the same element-wise definition as a store at [i][j]
+        k0, v0, g0 = models[2][0]
+        models = ('arr', models[1], ((('path', (k0, ('lv', v0[1], 1))), v0[2], g0),))
     if models is None or models[0] != 'arr':
         return False, f'self.models is not filled element-wise: {T.brief(models, 120) if models else None}'
     init, stores = models[1], models[2]
